@@ -51,6 +51,11 @@ META = {
         note="Trusted: Lean kernel; engine model tied by the import suite. Four genuine defects found by this suite were repaired in /repo (see known_findings.jsonl).",
         technique="Lean 4 theorems (image-level replace law, refusal frame lemmas) + differential import/export suite on the real DB",
     ),
+    "C10": dict(
+        text="Lean 4 proofs that (a) the small-step model of Export / WriteSnapshotTo performs exactly the guard calls and state captures of db.go in source order (fact regenerated from the source on every run), with the capture strictly inside the exclusive WAL-write-lock bracket and, for Export, no gap between that bracket and the read locks, (b) over the generated RWMutex code, for any lock table and any number of owners, a lock held shared by the snapshot cannot be taken exclusively by anyone else and the exclusively held write lock excludes every other owner, (c) a snapshot passing its checksum self-check is the image of its reported position under an explicit collision-freedom hypothesis; plus a schedule-exploring differential suite that suspends the real functions at every lock call and runs commits, checkpoints, WAL restarts, truncations and drops in the window, judged by the Lean spec (bytes = image of the reported position).",
+        note="Trusted: Lean kernel; fact extractor; small-step model tied by the snapsched suite; suspension at lock-call granularity. One genuine defect (Export's lock window) was found by this suite and repaired in /repo (068dfa9).",
+        technique="Lean 4 theorems over regenerated lock-order facts and generated RWMutex code + schedule-enumerating differential suite on the real Export/WriteSnapshotTo",
+    ),
     "C11": dict(
         text="Lean 4 proofs, for every well-formed lock table (any number of owners), that LiteFS's internal write lock, once granted, holds every lock of its rollback/WAL plan, excludes every other owner from those locks (none holds one, none can obtain one), is never granted while an older owner holds one, and that the checkpoint gate and the WAL-write guard behave as stated; the lock plan is regenerated from db.go (fact theorem) and the real lock table is compared with model and POSIX spec on protocol-following and random histories.",
         note="Trusted: Lean kernel; fact extractor; lock-table model tied by correspondence; call-level atomicity of TryLocks.",
